@@ -247,6 +247,31 @@ const LIBRARY: [&[&str]; 24] = [
     &["Zall ::= INTEGER ( ALL EXCEPT 5 )", "Zinc ::= INTEGER ( INCLUDES Zall )", "Zopt ::= SEQUENCE { a SEQUENCE { b INTEGER } OPTIONAL , c CHOICE { d NULL , e BOOLEAN } , f ENUMERATED { g , h } }"],
 ];
 
+/// three more modules: the last one imports from the other two, the second clause of its
+/// IMPORTS starts with a value reference (after a module that is named without an identifier,
+/// a lower-case word could be that identifier: the lexer has to look ahead)
+fn add_import_modules(ms: &mut ModuleSet) {
+    let Some(first) = ms.modules.first().cloned() else { return };
+    let raw = |text: &str| {
+        let toks: Vec<String> = text.split_whitespace().map(|t| t.to_string()).collect();
+        Item::Raw { name: toks[0].clone(), toks, kind: "import-leg".to_string() }
+    };
+    let mk = |name: &str, items: Vec<Item>, imports: Vec<Import>| {
+        let mut m = first.clone();
+        m.name = name.to_string();
+        m.items = items;
+        m.imports = imports;
+        m
+    };
+    ms.modules.push(mk("Zi-One", vec![raw("Zi-T ::= INTEGER"), raw("zi-val INTEGER ::= 1")], vec![]));
+    ms.modules.push(mk("Zi-Two", vec![raw("Zi-U ::= BOOLEAN"), raw("zi-two INTEGER ::= 2"), raw("zi-three INTEGER ::= 3")], vec![]));
+    ms.modules.push(mk(
+        "Zi-User",
+        vec![raw("Zi-S ::= SEQUENCE { a Zi-T DEFAULT zi-val , b Zi-U , c INTEGER DEFAULT zi-two , d INTEGER DEFAULT zi-three }")],
+        vec![Import { symbols: vec!["Zi-T".into(), "zi-val".into()], from: "Zi-One".into() }, Import { symbols: vec!["zi-two".into(), "Zi-U".into(), "zi-three".into()], from: "Zi-Two".into() }],
+    ));
+}
+
 /// append two or three library groups to the first module
 fn add_library(ms: &mut ModuleSet, src: &mut crate::src::Src) {
     let k = 2 + src.pick(2);
@@ -645,6 +670,9 @@ pub fn run(tier: Tier, seed: u64, replay: Option<String>) -> i32 {
         .map(|s| {
             let mut ms = gen_set(s, &gen_cfg());
             add_library(&mut ms, &mut crate::src::Src::new(&s[s.len() / 3..]));
+            if s.first().map_or(false, |x| x % 2 == 0) {
+                add_import_modules(&mut ms);
+            }
             let toks = tokens(&ms);
             let (base_text, _) = render_default(&toks, false);
             let base = observe(&base_text);
